@@ -34,6 +34,9 @@ func c04Alphabet(full bool) []jr.Dir {
 			for _, q := range []string{"1", "-1"} {
 				a = append(a, jr.T(d, "b", jr.B(food, acc, q, "CHF")))
 			}
+			// the account on the credit side (it is then the first account looked up) and a
+			// zero booking (touches the account without creating a balance)
+			a = append(a, jr.T(d, "r", jr.B(acc, food, "1", "CHF")), jr.T(d, "z", jr.B(food, acc, "0", "CHF")))
 			for _, v := range []string{"0", "1"} {
 				a = append(a, jr.A(d, jr.Bal{Acc: acc, Qty: v, Com: "CHF"}))
 			}
@@ -49,6 +52,7 @@ func c04Alphabet(full bool) []jr.Dir {
 				for _, q := range []string{"1", "-1", "0"} {
 					a = append(a, jr.T(d, "b", jr.B(food, acc, q, com)))
 				}
+				a = append(a, jr.T(d, "r", jr.B(acc, food, "1", com)))
 				for _, v := range []string{"0", "1", "-1"} {
 					a = append(a, jr.A(d, jr.Bal{Acc: acc, Qty: v, Com: com}))
 				}
@@ -220,7 +224,7 @@ func c04Run(e *core.Env) {
 		run(c04Alphabet(false), 5, "core", 4999)
 	} else {
 		run(c04Alphabet(true), 2, "full", 23)
-		run(c04Alphabet(false), 3, "core", 41)
+		run(c04Alphabet(false), 4, "core", 4001)
 	}
 }
 
